@@ -939,6 +939,11 @@ var badInts = []string{"1.5", "1e100", "2147483648", "-2147483649", "99999999999
 // a value for type t: valid by construction, with mutations applied while the budget lasts.
 // returns nil for "absent" (only meaningful for object fields / variables).
 func (g *gen) genValue(t *Ty, depth int, hasDef bool, canAbsent bool) *J {
+	return g.genValueN(t, depth, hasDef, canAbsent, true)
+}
+
+// naturalNull: the position is nullable, so a null may be produced without it being a mutation
+func (g *gen) genValueN(t *Ty, depth int, hasDef bool, canAbsent bool, naturalNull bool) *J {
 	r := g.r
 	if g.mutate() {
 		switch r.Pick(3) {
@@ -954,13 +959,13 @@ func (g *gen) genValue(t *Ty, depth int, hasDef bool, canAbsent bool) *J {
 		g.budget++ // fall through to the type specific mutations below
 	}
 	if t.K == 2 {
-		return g.genValue(t.Of, depth, false, false)
+		return g.genValueN(t.Of, depth, false, false, false)
 	}
 	// nullable position
-	if canAbsent && r.Chance(1, 4) && (t.K != 2) {
+	if canAbsent && r.Chance(1, 4) {
 		return nil
 	}
-	if r.Chance(1, 8) {
+	if naturalNull && r.Chance(1, 8) {
 		return jNull()
 	}
 	if t.K == 1 {
